@@ -16,7 +16,7 @@ open Precis Precis.Step
 
 theorem isSpaceSeparator_eq (c : Nat) : isSpaceSeparator c = Spec.zs16 c := by
   unfold isSpaceSeparator Spec.zs16
-  rw [isInTable_eq_eval Gen.Prof.spaceSeparator Facts.sorted_spaceSeparator c]
+  rw [isInTable_eq_eval Gen.Prof.spaceSeparator Facts.sorted_profSpaceSeparator c]
   exact agree_eval 100 _ _ _ _ (by decide +kernel) Facts.zs_agree c
 
 theorem zs16_space : Spec.zs16 0x20 = true := by decide +kernel
